@@ -146,6 +146,14 @@ def law_of(br):
     if c == 'load_i':
         S, ir = a[0], a[1]
         return ('V', S / (ir * ir), Z0, False)
+    if c == 'raw_zv':
+        Z, V = a[0], a[1]
+        if Z.iszero():
+            return ('V', Z0, V, False)
+        return ('V', Z, -V, not V.iszero())
+    if c == 'raw_yi':
+        Y, I = a[0], a[1]
+        return ('I', Y, I, (not I.iszero()) and (not Y.iszero()))
     raise ValueError(c)
 
 
